@@ -120,13 +120,13 @@ abbrev vecArr (N : ℕ) (env : Env) (a : Var) : Array Int := flatOf N a.size (fu
     `dft d a`: every limb that is transformed (`i < min a.size d.size`) satisfies the round-trip budget `RtBudget`;
     `svp d k a`: every product `a_i ⊛ s_k` (`i < min a.size d.size`) satisfies `ProdBudget`;
     `vmp d a m` / `vmpDD d a m`: `VmpBudget` for the `d.size` result limbs (vector = the integer limbs of `a`, resp. the
-    integer limbs the transform `a` stands for); `smallProduct`: `ProdBudget` of limb 0 of the operands;
+    integer limbs the transform `a` stands for); `vmpDD` also requires `d ≠ a` (the C function is not in-place safe); `smallProduct`: `ProdBudget` of limb 0 of the operands;
     `svp_prepare`, `vmp_prepare`, `idft`: shape conditions only — their rounding is paid for in the budget of the
     product / transform that produced or consumes the object.
     For `vmpDD` the precondition of the instance additionally contains the dataflow condition `opSPD` (the operand is
     tagged as a raw transform); `PreF` leaves it out, it is the static hypothesis `SingleProductDepth`. -/
 def PreF (M : F64Mod K) (vars : List Var) : OpD → AState → Prop
-  | .vmpDD d a m, s => ∃ P Mv, s.dvec a = some P ∧ s.pmat m = some Mv ∧
+  | .vmpDD d a m, s => d ≠ a ∧ ∃ P Mv, s.dvec a = some P ∧ s.pmat m = some Mv ∧
       VmpBudget M (matOf M Mv m.nrows m.ncols) m.nrows m.ncols (flatOf M.N a.size fun i t => P.coef i t) a.size d.size
   | op, s => PreD (dftOpsSound_f64 M) vars op s
 
@@ -138,17 +138,17 @@ theorem preD_of_preF (M : F64Mod K) (op : OpD) (a : AState) (h : PreF M vars op 
     PreD (dftOpsSound_f64 M) vars op a := by
   cases op with
   | vmpDD d x m =>
-    obtain ⟨P, Mv, hP, hm, hb⟩ := h
+    obtain ⟨hne, P, Mv, hP, hm, hb⟩ := h
     obtain ⟨az, ht, hr⟩ := hs
-    exact ⟨P, Mv, hP, hm, az, ht, hr, hb⟩
+    exact ⟨hne, P, Mv, hP, hm, az, ht, hr, hb⟩
   | _ => exact h
 
 theorem preF_of_preD (M : F64Mod K) (op : OpD) (a : AState) (h : PreD (dftOpsSound_f64 M) vars op a) :
     PreF M vars op a ∧ opSPD op a.raw := by
   cases op with
   | vmpDD d x m =>
-    obtain ⟨P, Mv, hP, hm, az, ht, hr, hb⟩ := h
-    exact ⟨⟨P, Mv, hP, hm, hb⟩, az, ht, hr⟩
+    obtain ⟨hne, P, Mv, hP, hm, az, ht, hr, hb⟩ := h
+    exact ⟨⟨hne, P, Mv, hP, hm, hb⟩, az, ht, hr⟩
   | _ => exact ⟨h, trivial⟩
 
 /-! ### the refinement relation -/
